@@ -16,7 +16,7 @@ var plans = map[string]*plan{
 	},
 	"C15": {
 		ID: "C15", Engine: "A", Level: "exploration",
-		Stages: []stage{{"C15", 24000, 1200000}, {"C15.single", 8000, 300000}},
+		Stages: []stage{{"C15", 24000, 1200000}, {"C15.single", 8000, 300000}, {"C15.shapes", 12000, 400000}},
 		Rule:   "queue workload as C06 with retry settings, Retry-After flavours, action expiry and concurrency drawn per run; oracle over the recorded history stamped with scheduler step and fake time. Non-trivial = a fault fired or a scheduling decision had >=2 candidates; distinct = distinct full choice trace.",
 		Real:   realA, Stub: append([]string{"scripted tq.Adapter in about half of the runs"}, stubA...),
 		Assume: []string{"client and server share the fake clock (no skew)", "bounds come from the documented meaning of lfs.transfer.maxretries / maxretrydelay, not from the implementation's constants"},
